@@ -14,6 +14,9 @@ import re
 from ..prog import AnalysisError, ClassInfo, FuncInfo, dotted, unparse
 from ..locks import LockAnalysis
 from ..match import pretty
+from ..flow import cond_atoms
+from ..truth import Truth
+from .. import sem
 from . import secutil as SU
 from .secutil import norm
 from .c03 import success_sites
@@ -105,23 +108,38 @@ def run(ctx):
             ctx.ob("C09.verify-conjuncts", needed.short(), "needed=issue+app", both,
                    "the permissions a subject needs from its issuer cover BOTH its certIssuePermissions and its appPermissions",
                    f"{needed.module.rel}:{s.lineno}")
+    # the helper bodies the containment conjunct relies on (each checked once, as its own obligation)
+    hall = P.func(f"{CERT}.certificate_has_all_permissions")
+    ok, why = SU.has_all_body(ctx, hall)
+    ctx.ob("C09.verify-conjuncts", hall.short(), "all-only-for-choice-all", ok,
+           f"'issuer may issue all' is answered {why}", hall.loc)
+    alw = P.func(f"{CERT}.get_list_of_allowed_persmissions")
+    ok, why = SU.issuable_psids_body(ctx, alw)
+    ctx.ob("C09.verify-conjuncts", alw.short(), "allowed=explicit-issue-psids", ok,
+           f"the permissions an issuer may hand on: {why}", alw.loc)
     chk = P.func(f"{CERT}.check_issuer_has_subject_permissions")
     fl = ctx.flows.get(chk)
+    if len(chk.params) < 2:
+        raise AnalysisError("C09: check_issuer_has_subject_permissions lost its issuer parameter")
+    subj_p, iss_p = chk.params[0], chk.params[1]
     for j, (k, s, st) in enumerate([e for e in fl.exits if e[0] == "return"]):
-        u = norm(pretty(unparse(fl.expand(s.value, st))))
-        conds = {norm(pretty(f.xkey)): f.pol for f in st.facts if f.kind == "cond"}
-        if u == "True":
-            ok = conds.get("issuer.certificate_has_all_permissions()") is True
+        x = SU.peel(SU.expand_safe(fl, s.value, st)) if s.value is not None else ast.Constant(None)
+        c = P.try_fold(chk.module, x, default="<nc>")
+        guards = [(f.xnode, f.pol) for f in st.facts if f.kind == "cond"]
+        if c != "<nc>":
+            ok, why = (True, "answers False") if not c else SU.permission_containment(ctx, guards, subj_p, iss_p)
         else:
-            ok = u == ("Certificate.check_all_requested_permissions_are_allowed(self.get_list_of_needed_permissions(),"
-                       "issuer.get_list_of_allowed_persmissions())")
+            parts = x.values if isinstance(x, ast.BoolOp) and isinstance(x.op, ast.Or) else [x]
+            ok, why = True, ""
+            for part in parts:
+                o, w = SU.permission_containment(ctx, cond_atoms(part, True) + guards, subj_p, iss_p)
+                ok, why = ok and o, (why + "; " if why else "") + w
         ctx.ob("C09.verify-conjuncts", chk.short(), f"return#{j}", ok,
-               f"containment check returns `{u[:120]}`; must be 'issuer may issue all' or all(needed in issuer's allowed)",
+               f"containment check returns `{pretty(unparse(x))[:120]}`; must be 'issuer may issue all' or all(needed in issuer's allowed): {why}",
                f"{chk.module.rel}:{s.lineno}")
     allw = P.func(f"{CERT}.check_all_requested_permissions_are_allowed")
-    src = norm(unparse(allw.node.body[-1]))
-    ctx.ob("C09.verify-conjuncts", allw.short(), "all-in", src == "returnall((iteminissuer_permissionsforitemincertificate_permissions))",
-           f"`{src[:100]}`", allw.loc)
+    roles, why = SU.containment_function(ctx, allw)
+    ctx.ob("C09.verify-conjuncts", allw.short(), "all-in", roles is not None, why, allw.loc)
 
     # ---- message acceptance: PSID within the ticket's permissions, generation time within validity
     vf = P.func(f"{VS}.verify")
@@ -163,35 +181,98 @@ def run(ctx):
             ctx.ob("C09.issuing", ic.short(), f"sign#{j}:narrowed", arg == "certificate.set_chain_length_issue_permissions(self).set_issuer(self)",
                    f"certificate signed = `{arg[:100]}` (chain length narrowed, issuer set)", f"{ic.module.rel}:{c.lineno}")
     ce = P.func(f"{OWN}.check_enough_min_chain_length_for_issuer")
-    src = norm(unparse(ce.node))
-    ctx.ob("C09.issuing", ce.short(), "budget", "permission['minChainLength']<1" in src and "ifnotany(" in src,
-           "issuer may issue only while none of its issuing permissions has minChainLength < 1", ce.loc)
+    ok, why = budget_rule(ctx, ce)
+    ctx.ob("C09.issuing", ce.short(), "budget", ok,
+           f"issuer may issue only while none of its issuing permissions has minChainLength < 1: {why}", ce.loc)
     sc = P.func(f"{CERT}.set_chain_length_issue_permissions")
     decs = [n for n in ast.walk(sc.node) if isinstance(n, ast.AugAssign) and isinstance(n.op, ast.Sub) and
             "minChainLength" in unparse(n.target) and P.try_fold(sc.module, n.value) == 1]
     ctx.ob("C09.issuing", sc.short(), "decrement-present", len(decs) == 1, f"{len(decs)} decrement(s) of minChainLength", sc.loc)
     fl = ctx.flows.get(sc)
-    for d in decs:
-        # the enclosing loop must iterate the NEW certificate's permissions and sit outside any branch of the all/explicit split
-        chain = []
-        cur = d
+    # the dictionary of the NEW certificate: first constructor argument of what is returned
+    new_dicts = set()
+    for k, s, st in fl.exits:
+        if k == "return" and isinstance(s.value, ast.Call) and s.value.args and isinstance(s.value.args[0], ast.Name):
+            new_dicts.add(s.value.args[0].id)
+    if len(new_dicts) != 1:
+        raise AnalysisError(f"C09: set_chain_length_issue_permissions: returned certificate dictionary not recognised ({sorted(new_dicts)})")
+    new_perms = f"{next(iter(new_dicts))}['toBeSigned']['certIssuePermissions']"
+
+    def chain_of(node):
+        out, cur = [], node
         while id(cur) in fl.parent:
             cur = fl.parent[id(cur)]
-            chain.append(cur)
+            out.append(cur)
+        return out
+    for d in decs:
+        # the enclosing loop must iterate the NEW certificate's permissions and sit outside any branch of the all/explicit split
+        chain = chain_of(d)
         loops = [x for x in chain if isinstance(x, ast.For)]
-        ok_iter = bool(loops) and norm(unparse(loops[0].iter)).replace("list(", "").rstrip(")") == "cert_dict['toBeSigned']['certIssuePermissions']"
+        ok_iter = bool(loops) and sem.same(SU.unwrap_collection(loops[0].iter), new_perms) and isinstance(loops[0].target, ast.Name) \
+            and sem.same(d.target, f"{loops[0].target.id}['minChainLength']") and fl.parent.get(id(d)) is loops[0]
         ifs = [x for x in chain if isinstance(x, ast.If)]
-        only_wants = all("certificate_wants_cert_issue_permissions" in unparse(x.test) for x in ifs)
-        in_else = any(loops and (loops[0] in x.orelse or any(loops[0] is y for b in x.orelse for y in ast.walk(b))) for x in ifs)
-        ctx.ob("C09.issuing", sc.short(), "decrement-on-every-path", ok_iter and only_wants and not in_else,
+        only_wants = all(sem.atoms(x.test, True) == sem.want("self.certificate_wants_cert_issue_permissions()") and
+                         any(loops and loops[0] is y for b_ in x.body for y in ast.walk(b_)) for x in ifs)
+        ctx.ob("C09.issuing", sc.short(), "decrement-on-every-path", ok_iter and only_wants,
                "every issuing permission of a CA subject gets minChainLength - 1 whatever the issuer's permission form" if
-               ok_iter and only_wants and not in_else else
-               "the minChainLength decrement is not applied on every path (it sits inside one branch of the all/explicit split): "
+               ok_iter and only_wants else
+               "the minChainLength decrement is not applied on every path (it sits inside one branch of the all/explicit split, "
+               "or does not run over the new certificate's permissions): "
                "a sub-CA inherits its issuer's chain-length budget unchanged", f"{sc.module.rel}:{d.lineno}")
-    rem = [n for n in ast.walk(sc.node) if isinstance(n, ast.If) and norm(unparse(n.test)) == "permission['minChainLength']<1"]
+    rem = []
+    for n in ast.walk(sc.node):
+        if not isinstance(n, ast.If):
+            continue
+        loops = [x for x in chain_of(n) if isinstance(x, ast.For)]
+        if not loops or not isinstance(loops[0].target, ast.Name) or fl.parent.get(id(n)) is not loops[0]:
+            continue
+        v = loops[0].target.id
+        if sem.atoms(n.test, True) in (sem.want(f"{v}['minChainLength'] < 1"), sem.want(f"{v}['minChainLength'] <= 0")) and \
+                sem.same(SU.unwrap_collection(loops[0].iter), new_perms):
+            rem.append((n, loops[0], v))
     ok_rem = bool(rem) and all(any(isinstance(c, ast.Call) and isinstance(c.func, ast.Attribute) and c.func.attr == "remove"
-                                   for b in r.body for c in ast.walk(b)) for r in rem) and \
-        (not decs or not rem or rem[0].lineno > decs[0].lineno)
+                                   and sem.same(c.func.value, new_perms) and len(c.args) == 1 and sem.same(c.args[0], v)
+                                   for b in r.body for c in ast.walk(b)) for r, lp, v in rem)
+    if ok_rem and decs:
+        # removal happens in a loop that follows the decrement loop in the same block
+        dl = [x for x in chain_of(decs[0]) if isinstance(x, ast.For)]
+        la, ia = SU.block_of(fl, dl[0]) if dl else (None, -1)
+        lb, ib = SU.block_of(fl, rem[0][1])
+        ok_rem = la is not None and la is lb and ia < ib
     ctx.ob("C09.issuing", sc.short(), "exhausted-removed", ok_rem,
            "issuing permissions whose budget reached 0 are removed after the decrement", sc.loc)
     ctx.floor("C09.issuing", 6)
+
+
+def budget_rule(ctx, ce):
+    """check_enough_min_chain_length_for_issuer answers truthy only when EVERY issuing permission of self still has
+    minChainLength >= 1.  -> (ok, why)"""
+    P = ctx.prog
+    fl = ctx.flows.get(ce)
+    exits = Truth(P, ctx.flows).exits(ce, "truthy")
+    if not exits or any(k == "fall" for k, s, st in fl.exits):
+        return False, "no truthy exit"
+
+    def good(var, it, elt, elt_pol):
+        if not SU.is_issue_permissions(SU.unwrap_collection(it), "self"):
+            return False
+        v = var.replace("@", "__v")
+        at = set(sem.atoms(SU.keepv(elt), elt_pol))
+        return sem.holds(at, f"{v}['minChainLength'] >= 1") or sem.holds(at, f"{v}['minChainLength'] > 0")
+    for s, st, _ in exits:
+        x = SU.peel(SU.expand_safe(fl, s.value, st))
+        c = P.try_fold(ce.module, x, default="<nc>")
+        cands = []
+        if c == "<nc>":
+            cands.append(SU.quantified(x, True))
+        else:
+            lf = SU.loop_forall(fl, ce, s)
+            if lf is not None:
+                cands.append(("forall", lf[0], lf[1], lf[2], lf[3], []))
+            for f in st.facts:
+                if f.kind == "cond":
+                    cands.append(SU.quantified(f.xnode, f.pol))
+        if not any(q is not None and q[0] == "forall" and not q[5] and good(q[1], q[2], q[3], q[4]) for q in cands):
+            return False, (f"line {s.lineno}: returns `{pretty(unparse(x))[:70]}` without having established minChainLength >= 1 "
+                           "for every entry of self's certIssuePermissions")
+    return True, "every truthy answer has established minChainLength >= 1 for all issuing permissions"
